@@ -175,6 +175,7 @@ def load_droop_main():
 
 def shard(ctx):
     install()
+    private_dir = tempfile.mkdtemp(prefix='c19_', dir=os.path.join(os.path.dirname(os.path.dirname(os.path.dirname(os.path.abspath(__file__)))), 'out'))
     try:
         cli = load_droop_main()
         sw = sweeps(ctx)
@@ -219,14 +220,23 @@ def shard(ctx):
                     with os.fdopen(fd, 'w') as f:
                         f.write(blt)
                     rng = ctx.case_rng(1000 + si)
-                    for combo in ((True, False, False), (True, True, True), (False, True, False), (False, False, True), (False, True, True)):
+                    for ci, combo in enumerate(((True, False, False), (True, True, True), (False, True, False), (False, False, True), (False, True, True),
+                                                (True, True, False))):
                         k = rng.randint(1, N)
                         o = dict(opts, path=path, report=combo[0], dump=combo[1], json=combo[2])
+                        if ci in (1, 5):
+                            o['profile'] = 1        # the documented profile=<reps> option runs the count under cProfile
+                            ctx.count('main_driver_runs_under_profile_option')
                         State.n = 0
                         State.target = k
                         try:
-                            with contextlib.redirect_stdout(io.StringIO()):
-                                text = cli.main(o)
+                            cwd = os.getcwd()
+                            os.chdir(private_dir)      # profile=<reps> writes profile.out into the working directory: one directory per shard
+                            try:
+                                with contextlib.redirect_stdout(io.StringIO()):
+                                    text = cli.main(o)
+                            finally:
+                                os.chdir(cwd)
                         except Exception as e:      # pylint: disable=broad-except
                             ctx.violation('main-raises:%s' % type(e).__name__, 'Droop.main raised %r when interrupted at line event %d with report/dump/json=%s' % (e, k, combo),
                                           dict(case, k=k, combo=combo))
@@ -244,6 +254,8 @@ def shard(ctx):
                     os.unlink(path)
     finally:
         uninstall()
+        import shutil
+        shutil.rmtree(private_dir, ignore_errors=True)
 
 
 def replay(case):
